@@ -15,7 +15,6 @@
    compare_exchange_weak may fail spuriously (non-deterministic branch).                                        */
 #ifndef RG_ATOMIC_H
 #define RG_ATOMIC_H
-enum { RG_STORE, RG_XCHG, RG_CAS, RG_ADD, RG_SUB, RG_OR, RG_AND };
 
 static inline RG_WORD A_load(RG_WORD* p, int mo) {
   rg_env(p);
@@ -60,6 +59,7 @@ static inline _Bool A_cas_weak(RG_WORD* p, RG_WORD* e, RG_WORD d, int ms, int mf
   rg_read(p, o, mf);
   return 0;
 }
+#ifndef RG_NO_ARITH
 static inline RG_WORD A_fetch_add(RG_WORD* p, RG_WORD d, int mo) {
   rg_env(p);
   RG_WORD o = *p;
@@ -88,4 +88,5 @@ static inline RG_WORD A_fetch_and(RG_WORD* p, RG_WORD d, int mo) {
   rg_write(p, o, o & d, mo, RG_AND);
   return o;
 }
+#endif
 #endif
